@@ -4,10 +4,17 @@ package build
 
 import (
 	"go/ast"
+	"go/build"
 	"go/parser"
 	"go/token"
+	"io"
 	"strconv"
+	"strings"
 )
+
+type vRC struct{ *strings.Reader }
+
+func (vRC) Close() error { return nil }
 
 // The original file: every kind of declaration the merge distinguishes, each import used by exactly one declaration, plus blank and dot
 // imports and declarations that no overlay touches.
@@ -48,6 +55,12 @@ const C = 3
 var untouched = Pi
 
 func untouchedFn() int { return C2 }
+
+// a local variable that happens to be called like an import: its selector is not a use of the package
+func shadowing() int {
+	strings := T{n: 4}
+	return strings.n
+}
 
 const C2 = 5
 `
@@ -173,8 +186,13 @@ func VHarness_OverlayMerge() {
 		ch[i] = VNondetInt(vChoiceNames[i], 0, max[i])
 	}
 	fset := token.NewFileSet()
-	orig, err := parser.ParseFile(fset, "orig.go", vOriginal, parser.ParseComments)
-	VAssert(err == nil, "the original parses")
+	// the original goes through the real parserOriginalFiles (the parse mode matters: pruneImports tells a package use from a local
+	// identifier by the parser's object resolution)
+	pkg := &PackageData{Package: &build.Package{Dir: "/src/p", GoFiles: []string{"orig.go"}}, bctx: &build.Context{
+		OpenFile: func(string) (io.ReadCloser, error) { return vRC{strings.NewReader(vOriginal)}, nil }}}
+	origs, err := parserOriginalFiles(pkg, fset)
+	VAssert(err == nil && len(origs) == 1, "the original parses")
+	orig := origs[0]
 	over, err := parser.ParseFile(fset, "gopherjs__over.go", vOverlay(ch), parser.ParseComments)
 	VAssert(err == nil, "the overlay parses")
 	untouchedSpec := orig.Decls[13].(*ast.GenDecl).Specs[0].(*ast.ValueSpec)
@@ -190,7 +208,7 @@ func VHarness_OverlayMerge() {
 	}
 
 	got := vCollect([]*ast.File{over, orig})
-	want := vDeclSet{"func overlayOnly": 1, "func pair": 1, "var untouched": 1, "func untouchedFn": 1, "const C2": 1}
+	want := vDeclSet{"func overlayOnly": 1, "func pair": 1, "var untouched": 1, "func untouchedFn": 1, "const C2": 1, "func shadowing": 1}
 	// F
 	want["func F"] = 1
 	if ch[0] == 2 {
@@ -275,3 +293,6 @@ func VHarness_OverlayMerge() {
 	VAssert(idx["pair"] < idx["untouched"] && idx["untouched"] < idx["untouchedFn"] && idx["untouchedFn"] < idx["C2"], "untouched declarations keep their order")
 	VReach("merge-checked")
 }
+
+// go/build.Default is not needed by the merge; its real initialiser cannot be followed by the interpreter (see C18)
+func VStub_DefaultContextC12() build.Context { return build.Context{GOARCH: "amd64", GOOS: "linux", Compiler: "gc"} }
